@@ -63,7 +63,7 @@ def corpus(tier, seed):
     progs = []
     for p in G.small_programs(3 if tier == "quick" else 4):
         progs.append(p)
-    for t in range(150 if tier == "quick" else 1500):
+    for t in range(150 if tier == "quick" else 1000):
         progs.append(G.random_program(rnd, rnd.choice([2, 3, 3, 4])))
     names = QUICK_CTX if tier == "quick" else sorted(CTX)
     items = []
